@@ -23,6 +23,29 @@ func isInitFn(f *ssa.Function) bool {
 
 // lockCallsBefore: a Lock/RLock call in f that dominates `in` with no Unlock/RUnlock between them
 func heldLock(f *ssa.Function, in ssa.Instruction) (string, bool) {
+	l := heldLockCall(f, in)
+	if l == nil {
+		return "", false
+	}
+	return calleeID(&l.Call), true
+}
+
+// lockObject: the object whose mutex field (or embedded mutex) the lock call locks
+func lockObject(l *ssa.Call) ssa.Value {
+	if len(l.Call.Args) == 0 {
+		return nil
+	}
+	v := l.Call.Args[0]
+	for {
+		fa, ok := v.(*ssa.FieldAddr)
+		if !ok {
+			return v
+		}
+		v = fa.X
+	}
+}
+
+func heldLockCall(f *ssa.Function, in ssa.Instruction) *ssa.Call {
 	var locks, unlocks []*ssa.Call
 	for _, ci := range allCalls(f) {
 		call, ok := ci.(*ssa.Call)
@@ -50,10 +73,10 @@ func heldLock(f *ssa.Function, in ssa.Instruction) (string, bool) {
 			}
 		}
 		if !released {
-			return calleeID(&l.Call), true
+			return l
 		}
 	}
-	return "", false
+	return nil
 }
 
 func checkC20(c *Ctx) {
@@ -85,11 +108,37 @@ func checkC20(c *Ctx) {
 			}
 		}
 	}
-	// everything reachable (statically) only from once bodies counts as once-guarded
+	// functions that can only run inside a Once body count as once-guarded: the bodies themselves, their anonymous
+	// functions, and unexported, never address-taken functions all of whose static call sites are in such functions
+	// (a function that is merely reachable from a body but also callable from elsewhere is NOT guarded)
 	inOnce := map[*ssa.Function]bool{}
+	buildCallIndex(c.P)
 	for b := range onceBodies {
-		for g := range staticReach(b, "") {
-			inOnce[g] = true
+		inOnce[b] = true
+	}
+	for changed := true; changed; {
+		changed = false
+		for b := range onceBodies {
+			for g := range staticReach(b, "") {
+				if inOnce[g] {
+					continue
+				}
+				ok := false
+				if par := g.Parent(); par != nil && inOnce[par] {
+					ok = true
+				} else if g.Object() != nil && !g.Object().Exported() && !addrTaken[g] && len(callSiteIndex[g]) > 0 {
+					ok = true
+					for _, cs := range callSiteIndex[g] {
+						if !inOnce[cs.Parent()] {
+							ok = false
+						}
+					}
+				}
+				if ok {
+					inOnce[g] = true
+					changed = true
+				}
+			}
 		}
 	}
 	nWrites := 0
@@ -162,7 +211,7 @@ func checkC20(c *Ctx) {
 		case inOnce[w.f]:
 			c.Holds("L-GLOBALS", fname(w.f), construct, "inside a sync.Once body", w.in.Pos())
 		default:
-			if lk, ok := heldLock(w.f, w.in); ok {
+			if lk, ok := heldLock(w.f, w.in); ok && !strings.HasSuffix(lk, ".RLock") {
 				c.Holds("L-GLOBALS", fname(w.f), construct, "under "+lk, w.in.Pos())
 			} else if why, ok := c20GlobalExempt[fname(w.f)+"|"+w.g]; ok {
 				c.Notes = append(c.Notes, "exempt L-GLOBALS|"+fname(w.f)+"|"+construct+": "+why)
@@ -172,6 +221,7 @@ func checkC20(c *Ctx) {
 		}
 	}
 	c.Notes = append(c.Notes, fmt.Sprintf("L-GLOBALS: %d writes to package-level state outside init", nWrites))
+	c20InOnce = inOnce
 	c20Once(c, onceBodies, inOnce)
 	c20Atomic(c)
 	c20Guarded(c)
@@ -323,6 +373,8 @@ func c20Once(c *Ctx, bodies map[*ssa.Function]bool, inOnce map[*ssa.Function]boo
 
 // callersRanOnce: f is unexported and not address-taken, and at each of its call sites the caller has already run
 // the Once (directly, or is itself such a helper, or is a method of the initialised type)
+var c20InOnce map[*ssa.Function]bool
+
 func callersRanOnce(c *Ctx, f *ssa.Function, runners map[*ssa.Function]bool, depth int) bool {
 	if depth > 4 || f.Object() == nil || f.Object().Exported() {
 		return false
@@ -337,7 +389,7 @@ func callersRanOnce(c *Ctx, f *ssa.Function, runners map[*ssa.Function]bool, dep
 	}
 	for _, cs := range sites {
 		caller := cs.Parent()
-		ok := false
+		ok := c20InOnce[caller] // called from inside the Once body: the initialisation is in progress on this goroutine
 		for _, ci := range allCalls(caller) {
 			call, isCall := ci.(*ssa.Call)
 			if !isCall {
@@ -467,9 +519,19 @@ func c20Guarded(c *Ctx) {
 					c.Holds(rule, fname(f), construct, "fresh object allocated here", fa.Pos())
 					return
 				}
-				if lk, ok := heldLock(f, fa); ok {
-					c.Holds(rule, fname(f), construct, "under "+lk, fa.Pos())
-					return
+				if lc := heldLockCall(f, fa); lc != nil {
+					lk := calleeID(&lc.Call)
+					w := guardedWrite(fa)
+					switch {
+					case strings.HasSuffix(lk, ".RLock") && w != "" && lockObject(lc) == fa.X:
+						c.Violated(rule, fname(f), construct, sp.typ+"."+sp.field+" is modified ("+w+") while only the READ lock is held: concurrent holders of the read lock race on it", fa.Pos())
+						return
+					case strings.HasSuffix(lk, ".RLock") && w != "":
+						// a read lock on ANOTHER object does not cover this write: fall through to the other justifications
+					default:
+						c.Holds(rule, fname(f), construct, "under "+lk, fa.Pos())
+						return
+					}
 				}
 				// serverInit runs under serverInitOnce and writes the keys of a Config that is being set up
 				if strings.HasSuffix(fname(f), "Config).serverInit") {
@@ -526,4 +588,49 @@ func c20Pure(c *Ctx, onceState map[string]bool) {
 			c.Violated(rule, fname(f), "writes neither its receiver nor package-level state", "two goroutines sharing the object (or the package) interfere: "+strings.Join(bad, "; "), f.Pos())
 		}
 	}
+}
+
+// guardedWrite: the access through this field address modifies the field or the object it refers to (a store, a
+// map update or delete, an element store, or a mutating container/list method); "" for a pure read
+func guardedWrite(fa *ssa.FieldAddr) string {
+	for _, r := range *fa.Referrers() {
+		switch x := r.(type) {
+		case *ssa.Store:
+			if x.Addr == ssa.Value(fa) {
+				return "assignment"
+			}
+		case *ssa.UnOp:
+			if x.Op != token.MUL {
+				continue
+			}
+			for _, r2 := range *x.Referrers() {
+				switch y := r2.(type) {
+				case *ssa.MapUpdate:
+					if y.Map == ssa.Value(x) {
+						return "map update"
+					}
+				case *ssa.IndexAddr:
+					for _, r3 := range *y.Referrers() {
+						if st, ok := r3.(*ssa.Store); ok && st.Addr == ssa.Value(y) {
+							return "element store"
+						}
+					}
+				case *ssa.Call:
+					if bi, ok := y.Call.Value.(*ssa.Builtin); ok && (bi.Name() == "delete" || bi.Name() == "clear") && len(y.Call.Args) > 0 && y.Call.Args[0] == ssa.Value(x) {
+						return bi.Name()
+					}
+					if sc := y.Call.StaticCallee(); sc != nil && len(y.Call.Args) > 0 && y.Call.Args[0] == ssa.Value(x) && sc.Signature.Recv() != nil {
+						if strings.Contains(sc.Signature.Recv().Type().String(), "container/list.List") {
+							switch sc.Name() {
+							case "Len", "Front", "Back":
+							default:
+								return "container/list." + sc.Name()
+							}
+						}
+					}
+				}
+			}
+		}
+	}
+	return ""
 }
